@@ -221,6 +221,13 @@ namespace Dune
      */
     std::set<std::pair<GlobalIndex,Attribute> > addedIndices_;
 
+    /**
+     * @brief The old neighbours whose message of the current sync has not been received yet.
+     *
+     * Only used if the messages are processed in the order of their arrival.
+     */
+    std::set<int> pendingSources_;
+
     /** @brief The type of the remote index list. */
     typedef typename RemoteIndices::RemoteIndexList RemoteIndexList;
 
@@ -766,6 +773,7 @@ namespace Dune
 
     for(auto remote = remoteIndices_.begin(); remote != end; ++remote, ++neighbourI) {
       oldNeighbours[neighbourI] = remote->first;
+      pendingSources_.insert(remote->first);
 
       // Make sure we only have one remote index list.
       assert(remote->second.first==remote->second.second);
@@ -1034,9 +1042,21 @@ namespace Dune
 
     // We have to determine the message size and source before the receive
 
-    MPI_Probe(useHardSource ? hardSource : MPI_ANY_SOURCE, 345, remoteIndices_.communicator(), &status);
+    if(useHardSource)
+      MPI_Probe(hardSource, 345, remoteIndices_.communicator(), &status);
+    else{
+      // Take the message of whichever neighbour we have not heard of yet in this sync.
+      // MPI_ANY_SOURCE must not be used: a neighbour that has already completed this sync
+      // may be sending the message of its next sync, which would be taken for the
+      // outstanding message of a slower neighbour.
+      int flag = 0;
+      while(!flag)
+        for(auto pending = pendingSources_.begin(); !flag && pending != pendingSources_.end(); ++pending)
+          MPI_Iprobe(*pending, 345, remoteIndices_.communicator(), &flag, &status);
+    }
 
     int source=status.MPI_SOURCE;
+    pendingSources_.erase(source);
     int count;
     MPI_Get_count(&status, MPI_PACKED, &count);
 
